@@ -561,7 +561,9 @@ func render(p []placed) string {
 
 func allSigs() []sig {
 	out := []sig{{0, 0}}
-	for _, d := range []uint8{4, 8, 2, 16, 32, 1} {
+	// denominators that are not powers of two count as well: the length is
+	// numerator x 32 / denominator (whole thirty-seconds)
+	for _, d := range []uint8{4, 8, 2, 16, 32, 1, 3, 6, 12, 5} {
 		for n := uint8(1); n <= 24; n++ {
 			if int(n)*32/int(d) <= 255 {
 				out = append(out, sig{n, d})
